@@ -268,9 +268,14 @@ def check_c07(r, ex, stats):
     # identify the fallback "final state only"
     snaps = list(res)
     fallback = None
-    if N >= 1 and len(res) >= 1:
+    if len(res) >= 1:
         last = res[-1]
-        is_final = (last[0] == full[-1].dig_out and last[1] == full[-1].t_out)
+        if N >= 1:
+            is_final = (last[0] == full[-1].dig_out and last[1] == full[-1].t_out)
+        else:
+            # no step at all: the current (= initial) state as the only entry is the same
+            # fallback (whether an empty list or the state comes back then is left open)
+            is_final = (last[0] == r.f_before[0] and feq(last[1], t0))
         produced = [s for s in side if s.dig_out == last[0] and near(s.t_out, last[1], t0)]
         if is_final and not produced and len(res) == 1:
             fallback = last
@@ -557,12 +562,26 @@ def _check_monitors(r, traj, off, N, stats, bad, prefix_ok):
             # (the entry of the step that was being monitored when it crashed)
             nfull_max = N + 1
             exp_it2 = [j for j in range(r.itstart, r.itstart + nfull_max + 1) if j % f == 0]
+            lb = ent.get("last_before")
+            if new_it != exp_it2[:len(new_it)] and lb is not None and exp_it2 and exp_it2[0] == r.itstart \
+                    and lb[0] == r.itstart and new_it == exp_it2[1:][:len(new_it)]:
+                exp_it2 = exp_it2[1:]   # restart joint not recorded twice (left open by the statement)
+                exp_it = [j for j in exp_it if j != r.itstart]
             if new_it != exp_it2[:len(new_it)]:
                 bad("P5", "monitor '%s' of a crashed call recorded iterations %r, not a prefix of %r" %
                     (ent["name"], new_it, exp_it2), trig + "/crash")
                 continue
             n = min(len(new_it), len([j for j in exp_it if j - r.itstart <= N]))
         else:
+            lb = ent.get("last_before")
+            if new_it != exp_it and lb is not None and exp_it and exp_it[0] == r.itstart and \
+                    new_it == exp_it[1:] and lb[0] == r.itstart and feq(lb[1], traj.states[off].time):
+                # the record of the starting state is already the last entry of this output
+                # (restart joint): recording it again or not is left open by the statement
+                ev0 = _model_monitor_value(traj, off, ent)
+                if lb[2] == ev0 or (math.isnan(lb[2]) and math.isnan(ev0)):
+                    exp_it = exp_it[1:]
+                    stats["P5-joint-not-duplicated"] += 1
             if new_it != exp_it:
                 bad("P5", "monitor '%s' (frequency %d) recorded iterations %r, expected %r" %
                     (ent["name"], f, new_it, exp_it), trig + "/it")
